@@ -76,3 +76,19 @@ Proof.
   exists [(0,false);(0,false);(1,false);(1,false);(0,false);(0,false);(0,false);(0,false);(0,false);(0,false);(1,false);(1,false);(1,false);(1,false);(1,false);(1,false)].
   vm_compute. split; reflexivity.
 Qed.
+
+(* ---- the memoised helpers in front of the constructors (Model/MemoLayer.v) ----
+   Unit._multiply / _divide and Dimension._multiply / _divide are lru_cache'd functions whose every return is a call of the interning
+   constructor (per-run obligation Gen_helpers).  Whatever the constructor calls return is one object (C20_program_safe); then every thread
+   gets that object from the helper, under every schedule of cache lookups, calls and cache stores, and the cache holds nothing else. *)
+From Measured Require Import Model.MemoLayer Proofs.MemoLayerFacts.
+
+Theorem C20_memoised_helpers : forall (inner : nat -> nat) (o : nat), (forall k, inner k = o) -> forall n sched,
+  let s := mlrun inner (mlinit n) sched in
+  (forall v, In v (mlresults s) -> v = o) /\ (forall v, mcache s = Some v -> v = o).
+Proof. exact memo_layer_singleton. Qed.
+Print Assumptions C20_memoised_helpers.
+
+(* the layer adds no protection of its own: in front of a racy function it hands out both objects *)
+Example C20_memo_layer_transparent_to_races : mlresults (mlrun (fun k => k) (mlinit 2) [0; 1; 0; 1; 0; 1]) = [0; 1].
+Proof. exact memo_layer_transparent_to_races. Qed.
